@@ -93,11 +93,52 @@ func (m *MapObject) resolve() *MapObject {
 
 type MapT struct{ M *MapObject }
 
+// SliceT: a window [Off, Off+Cap) on an array object.
+//   Pres == nil : dense - the logical content is the prefix of length Len.
+//   Pres != nil : sparse - physical cell Off+j belongs to the slice iff Pres[j]; the logical
+//                 content is the present cells in order; Len is their number. Conditional appends
+//                 create sparse slices, so every append site keeps its own cell (no position ite).
 type SliceT struct {
-	Arr *Object // val is ArrayV
-	Off int
-	Len *Term // BV64
-	Cap int   // concrete (physical) capacity from Off
+	Arr  *Object // val is ArrayV
+	Off  int
+	Len  *Term // BV64
+	Cap  int   // concrete (physical) capacity from Off
+	Pres []*Term
+}
+
+func (s SliceT) phys() int {
+	if s.Pres != nil {
+		return len(s.Pres)
+	}
+	if s.Len.IsConst() {
+		return int(s.Len.SVal())
+	}
+	n := s.Cap
+	if ub, ok := termUpper(s.Len); ok && ub < n {
+		n = ub
+	}
+	return n
+}
+
+// presAt: presence of physical cell j (relative to Off).
+func (s SliceT) presAt(j int) *Term {
+	if s.Pres != nil {
+		if j < len(s.Pres) {
+			return s.Pres[j]
+		}
+		return False
+	}
+	return BVCmp("bvslt", BVC(int64(j), 64), s.Len)
+}
+
+func (s SliceT) allPresent() bool {
+	n := s.phys()
+	for j := 0; j < n; j++ {
+		if !s.presAt(j).IsTrue() {
+			return false
+		}
+	}
+	return true
 }
 
 type FuncT struct {
@@ -194,7 +235,21 @@ func addAlt(alts []Alt, c *Term, t Target) []Alt {
 		switch x := t.(type) {
 		case SliceT:
 			y := alts[i].Tgt.(SliceT)
+			if x.Pres == nil && y.Pres == nil && x.Len == y.Len {
+				alts[i].C = Or(alts[i].C, c)
+				return alts
+			}
+			// different contents over the same window: pointwise presence
+			n := x.phys()
+			if m := y.phys(); m > n {
+				n = m
+			}
+			pres := make([]*Term, n)
+			for j := 0; j < n; j++ {
+				pres[j] = Ite(c, x.presAt(j), y.presAt(j))
+			}
 			y.Len = Ite(c, x.Len, y.Len)
+			y.Pres = pres
 			alts[i].Tgt = y
 			alts[i].C = Or(alts[i].C, c)
 			return alts
